@@ -170,6 +170,8 @@ func vxForType(t string) string {
 		return "vxBool()"
 	case "float64":
 		return "vxF64()"
+	case "uint64":
+		return "vxU64()"
 	}
 	if strings.HasSuffix(t, "_lv") {
 		return t + "(vxInt())"
